@@ -29,6 +29,9 @@ var stubPkgs = []string{
 	"github.com/go-logr/logr",
 	"k8s.io/klog/v2",
 	"github.com/prometheus/client_golang",
+	"github.com/gogo/protobuf",
+	"github.com/golang/protobuf",
+	"google.golang.org/protobuf",
 	modPath + "/pkg/scheduler/metrics",
 }
 
@@ -204,6 +207,8 @@ func run(c *cfg) int {
 		Dir:     c.repo,
 		Env:     goEnv(true),
 		Overlay: overlay,
+		// std-library assembly kernels are replaced by their own pure-Go twins (same package, same contract)
+		BuildFlags: []string{"-tags=math_big_pure_go,purego"},
 	}
 	pkgs, err := packages.Load(pcfg, patterns...)
 	if err != nil {
